@@ -49,12 +49,12 @@ def snapshot (st : St String) (calls : Trace String) (err : Option Bool) : Json 
 
 abbrev Des := List (String × Option Hash)
 
-def desInit : Des := (List.range 10).map fun k => (srcName k, none)
+def desInit : Des := (List.range 12).map fun k => (srcName k, none)
 
 def desStep (d : Des) (obs : String → Obs) : Des := d.map fun (s, x) => (s, (obs s).next x)
 
 def renderDes (d : Des) : Json :=
-  jarr (d.filterMap fun (s, x) => x.map fun h => jarr [jstr s, jstrs [s!"v{h}"]])
+  jarr ((sortBy (·.1) d).filterMap fun (s, x) => x.map fun h => jarr [jstr s, jstrs [s!"v{h}"]])
 
 /-! file_system -/
 
@@ -200,7 +200,10 @@ def runBlob (c : Json) : E Json := do
       match ← blobState spec with
       | some b => bucket := bucket ++ [(k, b, isBad spec)]
       | none => pure ()
-    let listing := (bucket.toArray.qsort (fun a b => a.1 < b.1)).toList
+    -- the polled bucket `b` owns the sources 4b .. 4b+3 (blob keys s0 .. s3 below its prefix)
+    let b := natD step "b" 0
+    let mine := (List.range 4).map fun i => srcName (4 * b + i)
+    let listing := ((bucket.filter (·.1 / 4 == b)).toArray.qsort (fun x y => x.1 < y.1)).toList
     let fetch : BlobFetch String :=
       match strD step "fail" "" with
       | "comm" => .comm
@@ -214,7 +217,7 @@ def runBlob (c : Json) : E Json := do
       | .listing _ => listing.filterMap fun (k, _, b) => if b then some k else none
       | .single _ _ => listing.filterMap fun (k, _, b) => if b && k == 0 then some k else none
       | _ => []
-    let e : BlobEvent String := ⟨fetch, rejOf step bad⟩
+    let e : BlobEvent String := ⟨fun s => mine.contains s, fetch, rejOf step bad⟩
     let o := blobStep st e
     st := o.st
     des := desStep des ((cloudBlob : Provider String _).obs e)
